@@ -40,7 +40,8 @@ Lemma no_other_state :
    ConcGen.codec_pkg_var_writers = [] /\ ConcGen.reflect_pkg_var_writers = [] /\ ConcGen.schema_pkg_var_writers = []) /\
   (only_calls ConcGen.reflector_methods = true /\ ConcGen.reflector_package_vars = []) /\
   (only_calls ConcGen.codec_methods = true /\ ConcGen.codec_package_vars = ["Global"%string]) /\
-  ConcGen.codec_entry_points = expected_codec_entry_points.
+  ConcGen.codec_entry_points = expected_codec_entry_points /\
+  ConcGen.schema_writers = expected_schema_writers.
 Proof.
-  exact (conj struct_fields_agree (conj package_vars_agree (conj reflector_stateless (conj codec_stateless codec_entry_points_agree)))).
+  exact (conj struct_fields_agree (conj package_vars_agree (conj reflector_stateless (conj codec_stateless (conj codec_entry_points_agree schema_writers_agree))))).
 Qed.
